@@ -88,7 +88,8 @@ def windowOutcome (s s' : S) (ops : List WOp) : String :=
   let sorted := fresh.mergeSort (fun a b => a.1 ≤ b.1)
   glue (["window"] ++ perOp ++ sorted.map (fun a => "r" ++ toString a.1 ++ "=" ++ ansStr a.2) ++
         ["closed=" ++ perLimiter s' (fun x => if s'.closed x then "1" else "0"),
-         "last=" ++ perLimiter s' (fun x => toString (s'.last x))])
+         "last=" ++ perLimiter s' (fun x => toString (s'.last x)),
+         "cap=" ++ perLimiter s' (fun x => toString (s'.cap x))])
 
 def splitOps (ws : List String) : List (List String) :=
   (ws.foldl (fun (acc : List (List String)) w =>
